@@ -117,6 +117,9 @@ func deltaDecode(key, lastKey []byte) ([]byte, error) {
 		return key, nil
 	}
 
+	if shared > uint64(len(lastKey)) {
+		return nil, fmt.Errorf("shared prefix length %d exceeds previous key length %d", shared, len(lastKey))
+	}
 	newKey := make([]byte, shared+uint64(len(key)))
 	copy(newKey, lastKey[:shared])
 	copy(newKey[shared:], key)
